@@ -53,8 +53,15 @@ class LRURecorder:
             # from outside, so under threads it is not logged rather than logged at a guessed position
             return None
         evs = self.events.setdefault(id(cache), [])
-        e = {"op": op, "k": k, "v": v, "ret": ret, "len": len(cache._cache),
-             "locked": bool(lock.locked()) if lock is not None else False,
+        try:
+            n = self.orig_len(cache)                 # the unwrapped __len__ (no private attribute of the cache is read)
+        except Exception:                            # noqa: BLE001
+            n = -1
+        locked = True                                # unknown lock type (e.g. RLock has no .locked()): not judged
+        if lock is not None and hasattr(lock, "locked"):
+            locked = bool(lock.locked())
+        e = {"op": op, "k": k, "v": v, "ret": ret, "len": n,
+             "locked": locked if lock is not None else False,
              "seq": len(evs) + 1, "thread": threading.get_ident()}
         evs.append(e)
         self.tls.last = e
@@ -63,6 +70,7 @@ class LRURecorder:
 
 def install_lru(rec: LRURecorder, sval=str) -> None:
     from liquid.utils.lru_cache import LRUCache
+    rec.orig_len = LRUCache.__dict__["__len__"] if "__len__" in LRUCache.__dict__ else len
 
     def mk_get(orig):
         def f(self, key):
